@@ -170,7 +170,7 @@ PanicBad(e) ==
             THEN "C02_AbortPanic" ELSE "C07_NoPanic"
       [] e.during \in {"insert", "modify", "cas", "delete", "cad", "deleteall"} ->
             \* a write that trips over the graveyard (stale entry of an earlier deletion) is a graveyard defect
-            IF "graveyard" \in DOMAIN e /\ e.graveyard THEN "C08_C07_GraveyardPanic" ELSE "C03_NoPanic"
+            IF "graveyard" \in DOMAIN e /\ e.graveyard THEN "C08_C07_C03_GraveyardPanic" ELSE "C03_NoPanic"
       [] e.during \in {"commit", "abort", "wtxn"} ->
             IF Cardinality(DOMAIN root) > 0 /\ \E x \in DOMAIN wtx : Cardinality(DOMAIN wtx[x].base) < Cardinality(DOMAIN root)
             THEN "C05_RegistrationKept" ELSE "C02_NoPanic"
